@@ -72,4 +72,17 @@ RoundTripKindHive(kind) == IF kind = "cat" THEN "str" ELSE IF kind = "numstr" TH
 (* without metadata the text class decides: numeric-looking text comes back as a number *)
 RoundTripKindNoMeta(kind) == ParsedKind(TextClass(kind))
 KindPreservedWithMeta == \A k \in Kinds : RoundTripKindHive(k) \in {k, "str"}
+
+(* The path text must separate every two distinct values (otherwise two key groups share a directory and a part   *)
+(* file name: the later one replaces the earlier one) and must parse back to the value.  A timestamp is modelled  *)
+(* by its second / microsecond / nanosecond components; the mechanism renders it with PathTimePrecision           *)
+(* (the code: Timestamp.isoformat(), all components).                                                             *)
+CONSTANT PathTimePrecision
+DTValues == [s : 0..1, us : 0..1, ns : 0..1]
+TextOfDT(v) == CASE PathTimePrecision = "ns" -> <<v.s, v.us, v.ns>>
+                 [] PathTimePrecision = "us" -> <<v.s, v.us, 0>>
+                 [] PathTimePrecision = "s" -> <<v.s, 0, 0>>
+ParseDT(t) == [s |-> t[1], us |-> t[2], ns |-> t[3]]
+TextInjective == \A a, b \in DTValues : TextOfDT(a) = TextOfDT(b) => a = b
+TextParsesBack == \A a \in DTValues : ParseDT(TextOfDT(a)) = a
 =============================================================================
